@@ -151,15 +151,16 @@ func (c *Ctx) OnlyIn(rule, what string, sites []ssa.Instruction, allowed ...stri
 	}
 	seen := map[string]bool{}
 	for _, s := range sites {
-		fn := FuncName(s.Parent())
-		key := what + "/in:" + fn
-		if al[fn] {
-			if !seen[fn] {
-				c.Ok(rule, key, c.pos(s), "allowed site of "+what)
-				seen[fn] = true
+		for _, fn := range c.Owners(s.Parent()) {
+			key := what + "/in:" + fn
+			if al[fn] {
+				if !seen[fn] {
+					c.Ok(rule, key, c.pos(s), "allowed site of "+what)
+					seen[fn] = true
+				}
+			} else {
+				c.Bad(rule, key, c.pos(s), what+" outside the allowed functions {"+strings.Join(allowed, ", ")+"}")
 			}
-		} else {
-			c.Bad(rule, key, c.pos(s), what+" outside the allowed functions {"+strings.Join(allowed, ", ")+"}")
 		}
 	}
 	for _, a := range allowed {
@@ -267,6 +268,46 @@ func DecisionTable(fn *ssa.Function) *DTable {
 		case *ssa.Jump:
 			walk(b.Succs[0], b, conds, depth+1)
 		case *ssa.Return:
+			// a boolean result that is itself a tested value (return !ok, return a < b)
+			// is the same decision as if v { return true }; return false
+			if len(x.Results) == 1 && isBoolType(x.Results[0].Type()) {
+				v := x.Results[0]
+				if phi, ok := v.(*ssa.Phi); ok && phi.Block() == b && pred != nil {
+					for i, p := range b.Preds {
+						if p == pred {
+							v = phi.Edges[i]
+						}
+					}
+				}
+				if _, isConst := v.(*ssa.Const); !isConst {
+					a, pol := condAtom(t, v)
+					atomSet[a] = true
+					for _, holds := range []bool{true, false} {
+						lit, neg := a, "!"+a
+						if !holds {
+							lit, neg = neg, lit
+						}
+						contra, dup := false, false
+						for _, c0 := range conds {
+							contra = contra || c0 == neg
+							dup = dup || c0 == lit
+						}
+						if contra {
+							continue
+						}
+						nc := conds
+						if !dup {
+							nc = append(append([]string{}, conds...), lit)
+						}
+						res := "false"
+						if holds == pol {
+							res = "true"
+						}
+						dt.Rows = append(dt.Rows, DRow{Conds: nc, Result: res})
+					}
+					return
+				}
+			}
 			var rs []string
 			for _, r := range x.Results {
 				rs = append(rs, termOnPath(t, r, b, pred))
@@ -752,4 +793,54 @@ func posOf(c *Ctx, in ssa.Instruction) string {
 		return "?"
 	}
 	return c.pos(in)
+}
+
+func isBoolType(t types.Type) bool {
+	b, ok := t.Underlying().(*types.Basic)
+	return ok && b.Info()&types.IsBoolean != 0
+}
+
+
+// Owners: the reviewed functions on whose behalf code in fn runs - fn itself
+// when it existed at review time, otherwise (a helper extracted later, see
+// inline.go) the known functions that call it, transitively. Confinement
+// rules ("only function F may store X") are evaluated against the owners, so
+// extracting a helper does not move an effect outside its reviewed owner.
+func (c *Ctx) Owners(fn *ssa.Function) []string {
+	seen := map[*ssa.Function]bool{}
+	set := map[string]bool{}
+	var walk func(f *ssa.Function, depth int)
+	walk = func(f *ssa.Function, depth int) {
+		if seen[f] || depth > 4 {
+			return
+		}
+		seen[f] = true
+		top := f
+		for top.Parent() != nil {
+			top = top.Parent()
+		}
+		if !isNewFunc(top) {
+			set[FuncName(f)] = true
+			return
+		}
+		n := 0
+		for _, g := range c.P.Funcs {
+			Instrs(g, func(in ssa.Instruction) {
+				if ci, ok := in.(ssa.CallInstruction); ok && ci.Common().StaticCallee() == top {
+					n++
+					walk(g, depth+1)
+				}
+			})
+		}
+		if n == 0 {
+			set[FuncName(f)] = true // unreachable new function: stands for itself
+		}
+	}
+	walk(fn, 0)
+	var out []string
+	for k := range set {
+		out = append(out, k)
+	}
+	sort.Strings(out)
+	return out
 }
